@@ -594,6 +594,20 @@ func (g *fgen) families() {
 	g.w("func FwdAsg_%d() (int, error) {\n\tv, err := rp.Lit()\n\tif err != nil {\n\t\treturn 0, rp.Wrap(err)\n\t}\n\treturn v + 1, nil\n}\n", s)
 	g.w("func Iface_%d(d rp.Doer) (string, error) {\n\treturn d.Do()\n}\n", s)
 	g.w("func IfaceNew_%d() (string, error) {\n\treturn rp.New().Do()\n}\n", s)
+	// variadic callees: plain arguments, the spread form f(xs...) with a local slice / a composite literal / a struct
+	// field / a call result / a parameter, a non-error variadic, and errors.Join
+	g.w("func joinAll_%d(errs ...error) error {\n\tfor _, e := range errs {\n\t\tif e != nil {\n\t\t\treturn e\n\t\t}\n\t}\n\treturn nil\n}\n", s)
+	g.w("func Variadic_%d() error {\n\treturn joinAll_%d(errors.New(\"v1\"), ErrSentinel)\n}\n", s, s)
+	g.w("func SpreadLocal_%d(n int) error {\n\tvar errs []error\n\terrs = append(errs, errors.New(\"a\"))\n\tif n > 0 {\n\t\terrs = append(errs, fmt.Errorf(\"b %%d\", n))\n\t}\n\treturn joinAll_%d(errs...)\n}\n", s, s)
+	g.w("func SpreadLit_%d() error {\n\terrs := []error{errors.New(\"x\"), nil}\n\treturn errors.Join(errs...)\n}\n", s)
+	g.w("func collect_%d() []error {\n\treturn []error{errors.New(\"c\")}\n}\n", s)
+	g.w("func SpreadCall_%d() error {\n\treturn joinAll_%d(collect_%d()...)\n}\n", s, s, s)
+	g.w("func SpreadParam_%d(errs []error) error {\n\treturn joinAll_%d(errs...)\n}\n", s, s)
+	g.w("type bag_%d struct {\n\terrs []error\n}\n", s)
+	g.w("func (b *bag_%d) SpreadField_%d() error {\n\treturn joinAll_%d(b.errs...)\n}\n", s, s, s)
+	g.w("func VariadicAny_%d(a ...any) error {\n\treturn fmt.Errorf(\"x %%v\", a...)\n}\n", s)
+	g.w("func joinTwo_%d(first error, rest ...error) (int, error) {\n\tif first != nil {\n\t\treturn 1, first\n\t}\n\treturn 0, joinAll_%d(rest...)\n}\n", s, s)
+	g.w("func SpreadSecond_%d() (int, error) {\n\trest := []error{io.EOF}\n\treturn joinTwo_%d(nil, rest...)\n}\n", s, s)
 	g.w("func AnyRes_%d(c bool) any {\n\tif c {\n\t\treturn rp.Any()\n\t}\n\treturn 1\n}\n", s)
 	// identifier chasing, branches
 	g.w("func Chase_%d() (int, string) {\n\tx := 1\n\ty := x\n\ts := \"a\"\n\ts = \"b\"\n\treturn y, s\n}\n", s)
